@@ -42,6 +42,9 @@ func (c *sidesClient) Inline(e *Engine, call *ast.CallExpr, callee *types.Func, 
 	if !smallBody(decl) || callee.Pkg() == nil || callee.Pkg().Path() != PathPQL {
 		return false
 	}
+	if !e.P.recordedFunc(callee) {
+		return true // a helper the join code was split into
+	}
 	sig := callee.Type().(*types.Signature)
 	for _, tup := range []*types.Tuple{sig.Params(), sig.Results()} {
 		for i := 0; i < tup.Len(); i++ {
@@ -91,6 +94,13 @@ func (c *sidesClient) val(e *Engine, st *State, x ast.Expr) string {
 				if b := c.val(e, st, v.X); strings.HasPrefix(b, "len:") {
 					return "last:" + strings.TrimPrefix(b, "len:")
 				}
+			}
+		}
+	case *ast.SelectorExpr:
+		// E.name for a subquery E that is the last element of some version
+		if f := selField(e.Info, v); f != nil && fldName(f) == "name" && isSubqPtr(e.Info.TypeOf(v.X)) {
+			if b := c.val(e, st, v.X); strings.HasPrefix(b, "elem:") {
+				return "name:" + b
 			}
 		}
 	case *ast.IndexExpr:
@@ -315,15 +325,20 @@ func (c *sidesClient) PreCall(e *Engine, st *State, call *ast.CallExpr, callee *
 			return nil
 		}
 		arg := e.ResolveExpr(call.Args[1])
-		sel, ok := ast.Unparen(arg).(*ast.SelectorExpr)
-		if !ok {
-			return nil
+		isName := false
+		if sel, ok := ast.Unparen(arg).(*ast.SelectorExpr); ok {
+			if f := selField(e.Info, sel); f != nil && fldName(f) == "name" && isSubqPtr(e.Info.TypeOf(sel.X)) {
+				isName = true
+			}
 		}
-		f := selField(e.Info, sel)
-		if f == nil || fldName(f) != "name" || !isSubqPtr(e.Info.TypeOf(sel.X)) {
-			return nil
+		got := strings.TrimPrefix(c.val(e, st, arg), "name:")
+		if !isName && !strings.HasPrefix(c.val(e, st, arg), "name:") {
+			// a name held in a string variable: only counts when it is known to be a subquery's name
+			if got = c.val(e, st, call.Args[1]); !strings.HasPrefix(got, "name:") {
+				return nil
+			}
+			got = strings.TrimPrefix(got, "name:")
 		}
-		got := c.val(e, st, sel.X)
 		switch n {
 		case "0":
 			if e.Reporting() {
